@@ -93,14 +93,18 @@ func model(recs []recSpec, h3 bool) (useH3 bool, kept []int) {
 }
 
 type h3RT struct {
-	dialer *ech.Dialer[*tls.Conn]
-	called int
+	dialer  *ech.Dialer[*tls.Conn]
+	called  int
+	respond bool // answer with a response (whose Request field is the request this round-tripper was given, as net/http requires)
 }
 
 func (h *h3RT) RoundTrip(req *http.Request) (*http.Response, error) {
 	h.called++
 	// an HTTP/3 transport would dial through the context-carried resolution result: do that to observe it
 	_, err := h.dialer.Dial(req.Context(), "udp", "ignored.invalid:443", nil)
+	if h.respond {
+		return &http.Response{StatusCode: 200, Status: "200 OK", Proto: "HTTP/3.0", ProtoMajor: 3, Header: http.Header{}, Body: http.NoBody, Request: req}, nil
+	}
 	return nil, fmt.Errorf("h3 fake: %w", err)
 }
 
@@ -144,7 +148,8 @@ func decisionTable(r *ev.Run) {
 		srv := mux.Server(host)
 		for si := sh; si < len(sets); si += nShard {
 			set := sets[si]
-			for _, withH3 := range []bool{false, true} {
+			for _, h3mode := range []int{0, 1, 2} { // HTTP3Transport: nil / set and failing / set and answering
+				withH3 := h3mode > 0
 				var rrs []dnsref.RR
 				for i, rc := range set {
 					ps := []dnsref.Param{}
@@ -183,16 +188,24 @@ func decisionTable(r *ev.Run) {
 					}
 					return nil, errors.New("refused")
 				}
-				h3 := &h3RT{dialer: tr.Dialer}
+				h3 := &h3RT{dialer: tr.Dialer, respond: h3mode == 2}
 				if withH3 {
 					tr.HTTP3Transport = h3
 				}
 				req, _ := http.NewRequest("GET", "https://a.example/", nil)
-				_, err := tr.RoundTrip(req)
+				resp, err := tr.RoundTrip(req)
 				tr.HTTPTransport.CloseIdleConnections()
 				wantH3, wantKept := model(set, withH3)
-				replay := map[string]any{"records": set, "http3_transport_set": withH3}
-				if err == nil {
+				replay := map[string]any{"records": set, "http3_transport_set": withH3, "http3_transport_answers": h3mode == 2}
+				switch {
+				case wantH3 && h3mode == 2:
+					// the HTTP/3 round-tripper answered: the caller gets that response, attributed to the request the caller made
+					if err != nil || resp == nil {
+						r.Violation("decision:h3-response-lost", fmt.Sprintf("the HTTP/3 round-tripper answered but RoundTrip returned %v, %v", resp, err), replay)
+					} else if resp.Request != req {
+						r.Violation("h3:response-request-identity", fmt.Sprintf("the response's Request is not the caller's request (URL %v, the caller asked for %v)", resp.Request.URL, req.URL), replay)
+					}
+				case err == nil:
 					r.Violation("decision:request-succeeded", "request succeeded although every dial fails", replay)
 				}
 				if (h3.called > 0) != wantH3 {
@@ -211,7 +224,7 @@ func decisionTable(r *ev.Run) {
 						r.Violation("decision:records-handed-to-dialer", fmt.Sprintf("dial targets came from records %v, model keeps %v (use h3 = %v)", got, want, wantH3), replay)
 					}
 				}
-				r.Eval(fmt.Sprintf("%+v|%v", set, withH3), fmt.Sprintf("decision: h3=%v kept=%d", wantH3, len(want)))
+				r.Eval(fmt.Sprintf("%+v|%v", set, h3mode), fmt.Sprintf("decision: h3=%v kept=%d", wantH3, len(want)))
 				if si == 77 {
 					r.Sample(replay)
 				}
@@ -565,7 +578,7 @@ func histories(r *ev.Run) {
 }
 
 func Run(r *ev.Run) {
-	r.Rule("part 1 (E1, exhaustive decision table): every set of 1..3 service-mode HTTPS records with distinct priorities over ALPN {none,[h3],[h2],[h3,h2],[http/1.1],[foo]} x no-default-alpn x {HTTP3Transport nil, set}: which round-tripper runs and which records reach the dialer (observed by dialing through the context-carried resolver, each record identified by a distinct port) vs a reference; part 2 (E4): every request history of length <=3 (thorough 4) over 8 origins {http,https} x {a.example,b.example (same address)} x {default port, 8443} x 3 zones {no HTTPS records, service records, alias to c.example with its own address}, with a Host override / with an empty Host field / plain, through the real net/http client and Transport over in-memory TLS servers: plaintext never used, http upgraded iff HTTPS records exist, ServerName/SNI = the URL's host, Host header preserved, dial address/port, resp.Request identity, and no server connection shared between origins. distinct = distinct cases")
+	r.Rule("part 1 (E1, exhaustive decision table): every set of 1..3 service-mode HTTPS records with distinct priorities over ALPN {none,[h3],[h2],[h3,h2],[http/1.1],[foo]} x no-default-alpn x {HTTP3Transport nil, set and failing, set and answering}: which round-tripper runs, which records reach the dialer, and that an HTTP/3 answer comes back attributed to the caller's own request (observed by dialing through the context-carried resolver, each record identified by a distinct port) vs a reference; part 2 (E4): every request history of length <=3 (thorough 4) over 8 origins {http,https} x {a.example,b.example (same address)} x {default port, 8443} x 3 zones {no HTTPS records, service records, alias to c.example with its own address}, with a Host override / with an empty Host field / plain, through the real net/http client and Transport over in-memory TLS servers: plaintext never used, http upgraded iff HTTPS records exist, ServerName/SNI = the URL's host, Host header preserved, dial address/port, resp.Request identity, and no server connection shared between origins. distinct = distinct cases")
 	r.Assume("net/http and crypto/tls run goroutines outside any scheduler: a failing history is re-executed and reported only if it fails 5/5", "record sets with equal priorities are excluded (their relative order is unspecified)", "HTTP/3 itself is represented by a fake round-tripper that dials through the context-carried resolver")
 	muxOnce.Do(func() { dns.VerifRoundTripper = mux })
 	t0 := time.Now()
